@@ -324,6 +324,11 @@ func (x *Exec) mathFacts(terms []*Term) []*Term {
 				out = append(out, Gt(a, zero), Lt(a, mk("2.0", SReal)))
 			case "rfn_pow":
 				out = append(out, Implies(Gt(arg, zero), Gt(a, zero)), Implies(Ge(arg, zero), Ge(a, zero)))
+				// base > 1: the power is above, at or below 1 with the sign of the exponent
+				one, ex := mk("1.0", SReal), a.Args[1]
+				out = append(out, Implies(And(Gt(arg, one), Gt(ex, zero)), Gt(a, one)),
+					Implies(And(Gt(arg, zero), Eq(ex, zero)), Eq(a, one)),
+					Implies(And(Gt(arg, one), Lt(ex, zero)), Lt(a, one)))
 			case "xfn_pow":
 				// positive base: the result is +Inf or a finite non-negative number (0 on underflow), or NaN for a NaN exponent
 				out = append(out, Implies(And(mk("xisfin", SBool, arg), Gt(mk("val", SReal, arg), zero), Not(mk("xisnan", SBool, a.Args[1]))),
@@ -343,6 +348,18 @@ func (x *Exec) mathFacts(terms []*Term) []*Term {
 				for j := i + 1; j < len(list); j++ {
 					a, b := list[i], list[j]
 					out = append(out, Implies(Eq(a.Args[0], mk("-", SReal, b.Args[0])), Eq(mk("+", SReal, a, b), mk("2.0", SReal))))
+				}
+			}
+		}
+		// powers of the same base > 1 are strictly increasing in the exponent
+		if op == "rfn_pow" && len(list) <= 6 {
+			for i := 0; i < len(list); i++ {
+				for j := 0; j < len(list); j++ {
+					a, b := list[i], list[j]
+					if i == j || a.Args[0].String() != b.Args[0].String() {
+						continue
+					}
+					out = append(out, Implies(And(Gt(a.Args[0], mk("1.0", SReal)), Lt(a.Args[1], b.Args[1])), Lt(a, b)))
 				}
 			}
 		}
